@@ -442,6 +442,80 @@ fn start_async_server() -> Result<std::net::SocketAddr, String> {
     rx.recv_timeout(WATCHDOG).map_err(|e| format!("async server did not start: {e}"))?
 }
 
+// ------------------------------------------------------------------ a frame that arrives in two bursts
+
+/// Real time between the two bursts of one frame: longer than any sub-second or one-second housekeeping
+/// interval a server might poll with (idle ticks, stop-flag checks), far below any documented timeout (the
+/// servers here have none configured).
+const PACE: std::time::Duration = std::time::Duration::from_millis(1250);
+
+/// One request per (server, split position), each on its own connection and thread (so the rows cost one
+/// pause of wall time altogether): the first `split` bytes, a pause of `PACE`, the rest. "Parsing those bytes
+/// returns an identical message" whatever the timing of their arrival: the answer must be the one the same
+/// request gets when it arrives in one piece.
+fn run_paced(server: &'static str, addr: std::net::SocketAddr, reqs: &[Req]) -> Out {
+    let mut out = Out { bad: Vec::new(), tally: Tally::default(), machinery: None, reconnects: 0 };
+    // a request with a body and a path, one without a body, one error case
+    let picks: Vec<&Req> = {
+        let mut v: Vec<&Req> = Vec::new();
+        for want in [|r: &Req| r.body.len() >= 64, |r: &Req| r.body.is_empty(), |r: &Req| matches!(r.kind, Kind::Missing), |r: &Req| matches!(r.kind, Kind::Json { .. })] {
+            if let Some(r) = reqs.iter().find(|r| want(r)) {
+                v.push(r);
+            }
+        }
+        v
+    };
+    let mut rows: Vec<(&Req, usize)> = Vec::new();
+    for r in &picks {
+        let n = r.wire().len();
+        let mut splits = vec![1usize, HEADER - 1, HEADER, HEADER + 1, HEADER + r.path.len(), n - 1];
+        splits.retain(|k| *k > 0 && *k < n);
+        splits.sort();
+        splits.dedup();
+        for k in splits {
+            rows.push((r, k));
+        }
+    }
+    let results: Vec<(usize, Result<Xfer, String>)> = std::thread::scope(|sc| {
+        let hs: Vec<_> = rows
+            .iter()
+            .enumerate()
+            .map(|(i, (r, k))| {
+                let wire = r.wire();
+                let k = *k;
+                (i, sc.spawn(move || -> Result<Xfer, String> {
+                    let mut s = tcp_connect(addr)?;
+                    s.write_all(&wire[..k]).and_then(|_| s.flush()).map_err(|e| format!("first burst: {e}"))?;
+                    std::thread::sleep(PACE);
+                    Ok(tcp_exchange(&mut s, &wire[k..]))
+                }))
+            })
+            .collect();
+        hs.into_iter().map(|(i, h)| (i, h.join().unwrap_or_else(|_| Err("paced row panicked".into())))).collect()
+    });
+    for (i, res) in results {
+        let (req, k) = rows[i];
+        out.tally.states += 1;
+        let mut case = req.to_json(server);
+        case["split_at"] = json!(k);
+        case["pause_ms"] = json!(PACE.as_millis() as u64);
+        match res {
+            Err(e) => out.machinery = Some(format!("{server} paced row: {e}")),
+            Ok(Xfer::Frame(f)) => {
+                if let Some(mut b) = compare(server, req, &f, &mut out.tally) {
+                    b.key = b.key.replacen("C01:server:", "C01:server-paced:", 1);
+                    b.what = format!("request sent as {k} bytes, a pause of {PACE:?}, then the rest: {}", b.what);
+                    out.bad.push((b, case));
+                }
+            }
+            Ok(Xfer::BadHeader(h)) => out.bad.push((Bad { key: format!("C01:server-paced:{server}:bad-response-header"), what: format!("request sent as {k} bytes, a pause of {PACE:?}, then the rest: the response starts with {h:02x?}") }, case)),
+            Ok(Xfer::Timeout) => out.bad.push((Bad { key: format!("C01:server-paced:{server}:no-response"), what: format!("request sent as {k} bytes, a pause of {PACE:?}, then the rest: {server} sent no complete response within {WATCHDOG:?}; request {case}") }, case.clone())),
+            Ok(Xfer::Closed(e)) => out.bad.push((Bad { key: format!("C01:server-paced:{server}:connection-lost"), what: format!("request sent as {k} bytes, a pause of {PACE:?}, then the rest: {server} dropped the connection instead of answering ({e}); request {case}") }, case.clone())),
+        }
+    }
+    out
+}
+
 // ------------------------------------------------------------------ WebSocket over an in-memory duplex
 
 fn run_ws(server: &'static str, reqs: &[Req]) -> Out {
@@ -526,6 +600,7 @@ pub struct SrvOut {
 }
 
 const SERVERS: [&str; 4] = ["Server", "AsyncServer", "WebSocketServer[inline]", "WebSocketServer[off-reader]"];
+const PACED_SERVERS: [&str; 2] = ["Server[paced]", "AsyncServer[paced]"];
 
 fn run_one(server: &'static str, tier: Tier) -> Out {
     match server {
@@ -537,6 +612,14 @@ fn run_one(server: &'static str, tier: Tier) -> Out {
             Ok(addr) => run_tcp("AsyncServer", addr, &requests(tier, false)),
             Err(e) => Out { bad: Vec::new(), tally: Tally::default(), machinery: Some(e), reconnects: 0 },
         },
+        "Server[paced]" => match start_sync_server() {
+            Ok(addr) => run_paced("Server", addr, &requests(tier, false)),
+            Err(e) => Out { bad: Vec::new(), tally: Tally::default(), machinery: Some(e), reconnects: 0 },
+        },
+        "AsyncServer[paced]" => match start_async_server() {
+            Ok(addr) => run_paced("AsyncServer", addr, &requests(tier, false)),
+            Err(e) => Out { bad: Vec::new(), tally: Tally::default(), machinery: Some(e), reconnects: 0 },
+        },
         "WebSocketServer[inline]" => run_ws("WebSocketServer[inline]", &requests(tier, false)),
         _ => run_ws("WebSocketServer[off-reader]", &requests(tier, true)),
     }
@@ -544,7 +627,7 @@ fn run_one(server: &'static str, tier: Tier) -> Out {
 
 pub fn run_all(ctx: &Ctx, tier: Tier, samples: &Samples) -> SrvOut {
     let outs: Vec<(&'static str, Out)> = std::thread::scope(|sc| {
-        let hs: Vec<_> = SERVERS.iter().map(|&s| (s, sc.spawn(move || run_one(s, tier)))).collect();
+        let hs: Vec<_> = SERVERS.iter().chain(PACED_SERVERS.iter()).map(|&s| (s, sc.spawn(move || run_one(s, tier)))).collect();
         hs.into_iter().map(|(s, h)| (s, h.join().unwrap_or_else(|_| Out { bad: Vec::new(), tally: Tally::default(), machinery: Some(format!("{s}: harness thread panicked")), reconnects: 0 }))).collect()
     });
     let mut bad = Vec::new();
@@ -554,6 +637,7 @@ pub fn run_all(ctx: &Ctx, tier: Tier, samples: &Samples) -> SrvOut {
     }
     let mut nv = serde_json::Map::new();
     let (mut states, mut transitions, mut compared) = (0, 0, 0);
+    let mut paced_states = 0u64;
     let n_req = requests(tier, false).len();
     for (s, o) in outs {
         if let Some(m) = &o.machinery {
@@ -563,7 +647,11 @@ pub fn run_all(ctx: &Ctx, tier: Tier, samples: &Samples) -> SrvOut {
             ctx.note(format!("server block {s}: {m}"));
         }
         let t = &o.tally;
-        if o.bad.is_empty() && o.machinery.is_none() {
+        if PACED_SERVERS.contains(&s) {
+            if o.bad.is_empty() && o.machinery.is_none() && t.compared < 12 && !any_bad {
+                ctx.machinery(format!("vacuous server block {s}: only {} paced responses compared", t.compared));
+            }
+        } else if o.bad.is_empty() && o.machinery.is_none() {
             for (what, n) in [("responses", t.compared), ("handler-set queries", t.handler_query_kept), ("decorated headers", t.decorated), ("error frames", t.error_frames), ("built-in routes", t.builtin)] {
                 if n == 0 && !any_bad {
                     ctx.machinery(format!("vacuous server block {s}: no {what} compared"));
@@ -572,6 +660,9 @@ pub fn run_all(ctx: &Ctx, tier: Tier, samples: &Samples) -> SrvOut {
             if t.compared != n_req as u64 && !any_bad {
                 ctx.machinery(format!("server block {s}: {} of {n_req} responses compared", t.compared));
             }
+        }
+        if PACED_SERVERS.contains(&s) {
+            paced_states += t.states;
         }
         states += t.states;
         transitions += t.compared;
@@ -591,10 +682,10 @@ pub fn run_all(ctx: &Ctx, tier: Tier, samples: &Samples) -> SrvOut {
         states,
         transitions,
         responses_compared: compared,
-        planned: (SERVERS.len() * n_req) as u64,
+        planned: (SERVERS.len() * n_req) as u64 + paced_states,
         bound: json!({"servers": SERVERS, "requests_per_server": n_req, "handler_templates": TPL_NAMES, "path_lengths": PATH_LENS,
                       "builtin_routes": ["with_json", "with_json_blocking", "with_typed_slice<f64,f64>", "method-not-found"],
-                      "rule": "templates x path lengths x body lengths (x header variants cycling id/body_format/reserved/ec classes), one request at a time on one connection per server; then EOF/close with no further bytes"}),
+                      "rule": "templates x path lengths x body lengths (x header variants cycling id/body_format/reserved/ec classes), one request at a time on one connection per server; then EOF/close with no further bytes; paced rows (Server, AsyncServer): four request shapes x split positions {1, 47, 48, 49, after the query, len-1}, each sent as two bursts 1250 ms apart on its own connection"}),
         nonvacuity: Value::Object(nv),
     }
 }
@@ -604,7 +695,12 @@ pub fn run_all(ctx: &Ctx, tier: Tier, samples: &Samples) -> SrvOut {
 /// server and connection are needed anyway.
 pub fn replay(case: &Value) -> Result<Vec<Bad>, String> {
     let name = case["server"].as_str().ok_or("server")?;
-    let s = SERVERS.iter().copied().find(|s| *s == name).ok_or("unknown server")?;
+    let paced = case.get("split_at").is_some();
+    let s = if paced {
+        PACED_SERVERS.iter().copied().find(|s| s.starts_with(&format!("{name}["))).ok_or("unknown server")?
+    } else {
+        SERVERS.iter().copied().find(|s| *s == name).ok_or("unknown server")?
+    };
     let o = run_one(s, Tier::Quick);
     if let Some(m) = o.machinery {
         return Err(format!("machinery: {m}"));
